@@ -7,7 +7,10 @@ processes interpreted from a table; the latter also through the kernel tie, Tie/
 posts the repeating program [observe]) and for a Monitor that is the last or a nested component;
 (b) statistics recomputed by the harness's own degree count and BFS (no networkx) from the final network, which in
 a third of the cases is not the prototype (a user process posting addNode/addEdge/removeNode/removeEdge, AddDelete,
-Percolate)."""
+Percolate).  A fifth of the (b) cases run the SAME NetworkStatistics and dynamics objects first over one or two other
+networks (setNetworkGenerator between the runs) that have the order, size and degree histogram of the case's own
+network but other components (unions of rings of other lengths, degree-preserving edge swaps); the LAST run is the
+one judged, against the network IT ended with."""
 import itertools
 
 import networkx
@@ -77,6 +80,88 @@ def gen_stats_graph(rnd):
                 if rnd.random() < 0.3:
                     g.add_edge(a, a)
     return {'nodes': list(g.nodes()), 'edges': [list(e) for e in g.edges()], 'kind': kind}
+
+
+def ring_partitions(n, least=3):
+    """the ways of writing n as a sum of ring lengths >= 3, each as a non-decreasing list"""
+    out = []
+
+    def go(rest, lo, acc):
+        if rest == 0:
+            out.append(list(acc))
+        for k in range(lo, rest + 1):
+            if rest - k == 0 or rest - k >= k:
+                go(rest - k, k, acc + [k])
+    go(n, least, [])
+    return out
+
+
+def rings(parts, labels, extra_edges):
+    edges = []
+    at = 0
+    for k in parts:
+        edges += [[labels[at + i], labels[at + (i + 1) % k]] for i in range(k)]
+        at += k
+    return edges + [list(e) for e in extra_edges]
+
+
+def components_of(nodes, edges):
+    s = own_stats(nodes, [tuple(e) for e in edges])
+    return (s['components'], s['lcc'], s['slcc'])
+
+
+def gen_same_fingerprint(rnd):
+    """2-3 networks with the same order, size and degree histogram: unions of rings of different lengths (a 7-ring, a
+    triangle and a square; with the same isolated nodes / the same separate path next to them), or a random network and
+    what degree-preserving swaps of two edges make of it (kept when the components differ).  The last is the case's own."""
+    if rnd.random() < 0.5:
+        for _ in range(20):
+            n = rnd.randrange(4, 10)
+            nodes = list(range(n))
+            p = rnd.choice([0.25, 0.35, 0.5])
+            edges = [[a, b] for a, b in itertools.combinations(nodes, 2) if rnd.random() < p]
+            if len(edges) < 2:
+                continue
+            cur = {tuple(e) for e in edges}
+            out = [{'nodes': list(nodes), 'edges': [list(e) for e in sorted(cur)], 'kind': 'swapped'}]
+            for _ in range(60):
+                (a, b), (c, d) = rnd.sample(sorted(cur), 2)
+                if rnd.random() < 0.5:
+                    c, d = d, c
+                # a-b, c-d  ->  a-d, c-b: every node keeps its degree (a walk; a network is kept when its components differ
+                # from those of the one kept last; now and then the end of the walk is kept whatever its components)
+                if len({a, b, c, d}) < 4 or tuple(sorted((a, d))) in cur or tuple(sorted((c, b))) in cur:
+                    continue
+                cur = (cur - {tuple(sorted((a, b))), tuple(sorted((c, d)))}) | {tuple(sorted((a, d))), tuple(sorted((c, b)))}
+                if components_of(nodes, cur) != components_of(out[-1]['nodes'], out[-1]['edges']):
+                    ns = list(nodes)
+                    if rnd.random() < 0.3:
+                        rnd.shuffle(ns)
+                    out.append({'nodes': ns, 'edges': [list(e) for e in sorted(cur)], 'kind': 'swapped'})
+                    if len(out) == 3 or rnd.random() < 0.6:
+                        break
+            if len(out) == 1 and cur != {tuple(e) for e in edges} and rnd.random() < 0.1:
+                out.append({'nodes': list(nodes), 'edges': [list(e) for e in sorted(cur)], 'kind': 'swapped'})
+            if len(out) >= 2:
+                if rnd.random() < 0.5:
+                    out.reverse()
+                return out
+    n = rnd.randrange(6, 13)
+    parts = ring_partitions(n)
+    chosen = rnd.sample(parts, min(len(parts), rnd.choice([2, 2, 3])))
+    iso = rnd.choice([0, 0, 1, 2])
+    path = rnd.choice([0, 0, 2, 3])
+    out = []
+    for ps in chosen:
+        ps = list(ps)
+        rnd.shuffle(ps)
+        labels = list(range(n + iso + path))
+        if rnd.random() < 0.4:
+            rnd.shuffle(labels)
+        tail = labels[n + iso:]
+        nodes = sorted(labels) if rnd.random() < 0.7 else list(labels)
+        out.append({'nodes': nodes, 'edges': rings(ps, labels, [(tail[i], tail[i + 1]) for i in range(len(tail) - 1)]), 'kind': 'rings'})
+    return out
 
 
 def gen_mutation(rnd, graph):
@@ -193,7 +278,7 @@ class H(Harness):
             'as first, last, nested-first or nested-last component; 5 (b) NetworkStatistics on networks of 1-9 '
             'nodes: no edges, one hub, several clumps, random, complete, self-loops, path; in 35% of these a process of the sequence changes the network during the run '
             '(a user process posting addNode/addEdge/removeNode/removeEdge at 0.25-2.5, AddDelete, Percolate with T in {0, 0.25, 0.5, 0.75}; both dynamics; NetworkStatistics '
-            'first in a quarter of them) and the statistics are judged on the network the run ended with; non-trivial = a run with >= 2 observations between which a locus '
+            'first in a quarter of them) and the statistics are judged on the network the run ended with; a fifth of the (b) cases run the SAME NetworkStatistics and dynamics objects first over one or two other networks with the same order, size and degree histogram (unions of rings of other lengths on 6-12 nodes, also next to the same isolated nodes or path; random networks of 4-9 nodes after degree-preserving swaps of two edges, kept when the components differ; setNetworkGenerator between the runs) and judge the last run against the network it ended with; non-trivial = a run with >= 2 observations between which a locus '
             'changed size, or a network with >= 2 components or a hub or a final network that differs from the prototype; distinct by the whole case')
     TRUSTED = ['Coq 8.16.1 kernel incl. vm_compute', 'harness/compart.py (event-tap snapshots of all locus sizes), harness/c12.py (own BFS and degree count; event-tap snapshots for the '
                'plain-loci runs; the final network read from Dynamics.network() when the simulation reports its end), harness/kscript.py, harness/kcommon.py',
@@ -213,6 +298,12 @@ class H(Harness):
             elif what == 'plain':
                 out.append(gen_plain(rnd))
             else:
+                if rnd.random() < 0.2:
+                    # the same objects run over networks with one fingerprint (N, M, degree histogram) and other components
+                    nets = gen_same_fingerprint(rnd)
+                    c = {'stats': nets[-1], 'first': nets[:-1]}
+                    out.append(c)
+                    continue
                 c = {'stats': gen_stats_graph(rnd)}
                 if rnd.random() < 0.35:
                     c['mut'] = gen_mutation(rnd, c['stats'])
@@ -307,8 +398,23 @@ class H(Harness):
         dyn = (ep.StochasticDynamics if dynamics == 'stochastic' else ep.SynchronousDynamics)(proc, g)
         final = {}
         self._watch_final(dyn, final)
+        first_exc = None
+        firsts = []
+        for fd in case.get('first') or []:
+            # earlier runs of the SAME objects over other networks; what they reported is kept for the replay, not judged here
+            dyn.setNetworkGenerator(compart.make_graph(fd))
+            install(Oracle(seed=seed))
+            try:
+                r1 = dyn.set(params).run(fatal=True)[epyc.Experiment.RESULTS]
+                firsts.append({k: r1.get(v) for k, v in (('components', ep.NetworkStatistics.COMPONENTS), ('lcc', ep.NetworkStatistics.LCC),
+                                                          ('slcc', ep.NetworkStatistics.SLCC))})
+            except Exception as e:
+                first_exc = type(e).__name__ + ': ' + str(e)
+        if case.get('first'):
+            dyn.setNetworkGenerator(g)
+            final.clear()
         install(Oracle(seed=seed))
-        exc = None
+        exc = first_exc
         res = {}
         try:
             rc = dyn.set(params).run(fatal=True)
@@ -325,7 +431,9 @@ class H(Harness):
             obs['skipped'] = True           # the run ended with the null network: outside the quantifier (mean degree 0/0)
         changed = fin is not None and (sorted(fin[0]) != sorted(g.nodes()) or sorted(tuple(sorted(e)) for e in fin[1]) != sorted(tuple(sorted(e)) for e in g.edges()))
         obs['changed'] = changed
-        obs['stats'] = {'stats_cases': 1, 'stats_final_network_differs_from_prototype': 1 if changed else 0}
+        obs['earlier_runs'] = firsts
+        obs['stats'] = {'stats_cases': 1, 'stats_final_network_differs_from_prototype': 1 if changed else 0,
+                        'stats_same_objects_run_over_other_networks_first': 1 if case.get('first') else 0}
         return obs
 
     def run_plain(self, case):
